@@ -105,6 +105,9 @@ func (x *xl) tryType(e ast.Expr) *gty {
 		if t.Op == token.NOT {
 			return tBool
 		}
+		if t.Op == token.ARROW {
+			return nil // a channel receive: the element type is not tracked
+		}
 		return x.tryType(t.X)
 	case *ast.StarExpr:
 		if in := x.tryType(t.X); in != nil {
@@ -691,6 +694,14 @@ func (x *xl) selector(t *ast.SelectorExpr, want *gty) (string, *gty, error) {
 			return name, want, nil
 		}
 	}
+	if h, ok := x.hint(text); ok && x.frag && x.spec.fieldVars {
+		// a field of an opaque value that the table declares as a variable of the fragment
+		v := &vinfo{coq: x.fresh(sanitize(text)), ty: h}
+		x.live[v.coq]++
+		x.scopes[0][text] = v
+		x.addParam(v.coq, h.coq(), "field "+text+" at the start of the fragment", 2)
+		return v.coq, h, nil
+	}
 	// field of the opaque result of a method call on a variable: an observer
 	if c, ok := t.X.(*ast.CallExpr); ok {
 		if se, ok := c.Fun.(*ast.SelectorExpr); ok {
@@ -718,6 +729,11 @@ func (x *xl) selector(t *ast.SelectorExpr, want *gty) (string, *gty, error) {
 	}
 	// field of an opaque value held in a variable: an observer
 	if id, ok := t.X.(*ast.Ident); ok {
+		if x.spec.fieldObs && x.lookup(id.Name) == nil {
+			if pv, ok := x.pre[id.Name]; ok && pv.ty.k == "opaque" {
+				_, _, _ = x.ident(id, nil) // a parameter / earlier local that has not been read yet
+			}
+		}
 		if v := x.lookup(id.Name); v != nil && v.ty.k == "opaque" {
 			rt := want
 			if h, ok := x.hint(text); ok {
